@@ -42,9 +42,9 @@ import (
 // is listed by name.
 
 func init() {
-	Register(&Rule{ID: "R-ORD-2", Props: []string{"C12", "C05"}, Floor: 5,
+	Register(&Rule{ID: "R-ORD-2", Props: []string{"C12", "C05"}, Floor: 3,
 		Doc:      "a map-ordered loop that hands its iteration VALUE to a self-keyed writer (one that derives the container key from the stored object: ViewMap.Set, SetTemporaryTable, ReplaceTemporaryTable and helpers built on them — computed, not listed) ranges over a map whose every entry m[k] = v ties k to v's container key: v is the result of a keyed load whose key argument is k up to wrapping, or k is computed from v through the fields the writer's key expression reads; otherwise two entries can land in one slot and map order decides which one survives",
-		Controls: []string{"CtlOrd2PublishByAlias", "CtlOrd2KeyFromOtherField", "CtlOrd2VisitedByName"},
+		Controls: []string{"CtlOrd2PublishByAlias", "CtlOrd2KeyFromOtherField", "CtlOrd2VisitedByName", "CtlOrd2HelperReturnsOtherKey", "CtlOrd2HelperPairMixedUp"},
 		Run:      ruleOrd2})
 }
 
@@ -673,6 +673,17 @@ func ord2LocalMap(v ssa.Value) (*ssa.MakeMap, string) {
 				if bi, ok := x.Common().Value.(*ssa.Builtin); ok && (bi.Name() == "len" || bi.Name() == "delete") {
 					continue
 				}
+				if g := x.Common().StaticCallee(); g != nil && g.Blocks != nil {
+					readOnly := true
+					for i, a := range x.Common().Args {
+						if a == v && (i >= len(g.Params) || !ord2ReadOnlyMapParam(g.Params[i], 2)) {
+							readOnly = false
+						}
+					}
+					if readOnly {
+						continue // the helper only looks entries up
+					}
+				}
 				return nil, "it is passed to " + x.Common().Value.Name()
 			case *ssa.Return:
 			default:
@@ -681,6 +692,185 @@ func ord2LocalMap(v ssa.Value) (*ssa.MakeMap, string) {
 		}
 	}
 	return mk, ""
+}
+
+// ord2ReadOnlyMapParam: the callee only reads the map it is given (lookups,
+// len, range, handing it on to a callee that only reads it).
+func ord2ReadOnlyMapParam(pa *ssa.Parameter, depth int) bool {
+	seen := map[ssa.Value]bool{}
+	work := []ssa.Value{pa}
+	for len(work) > 0 {
+		v := work[0]
+		work = work[1:]
+		if seen[v] {
+			continue
+		}
+		seen[v] = true
+		refs := v.Referrers()
+		if refs == nil {
+			continue
+		}
+		for _, r := range *refs {
+			switch x := r.(type) {
+			case *ssa.Lookup, *ssa.Range, *ssa.DebugRef:
+			case *ssa.Phi:
+				work = append(work, x)
+			case *ssa.BinOp: // comparison with nil
+			case ssa.CallInstruction:
+				if bi, ok := x.Common().Value.(*ssa.Builtin); ok {
+					if bi.Name() == "len" {
+						continue
+					}
+					return false
+				}
+				g := x.Common().StaticCallee()
+				if g == nil || g.Blocks == nil || depth == 0 {
+					return false
+				}
+				for i, a := range x.Common().Args {
+					if a == v && (i >= len(g.Params) || !ord2ReadOnlyMapParam(g.Params[i], depth-1)) {
+						return false
+					}
+				}
+			default:
+				return false
+			}
+		}
+	}
+	return true
+}
+
+// helperPair: the helper g returns, as results #ki and #vi, a key and the
+// object that belongs to it: on every return the value result is nil, or the
+// result of a keyed load whose key argument is the returned key (up to
+// wrapping), or an entry its map parameter already holds under that key, or
+// such a pair obtained from another helper. mapParam is the index of the map
+// parameter entries are taken from (-1: none).
+func (e *ord2Engine) helperPair(g *ssa.Function, ki, vi int, elem types.Type, depth int) (ok bool, mapParam int, how string) {
+	p := e.c.P
+	mapParam = -1
+	if g.Blocks == nil || depth == 0 {
+		return false, -1, "the helper " + short2(p.Name(g)) + " cannot be followed"
+	}
+	rets := core.Returns(g)
+	if len(rets) == 0 {
+		return false, -1, "the helper " + short2(p.Name(g)) + " never returns"
+	}
+	var hows []string
+	for _, r := range rets {
+		keys := core.ReturnOperand(r, ki)
+		for _, rv := range core.ReturnOperand(r, vi) {
+			if rv == nil {
+				continue
+			}
+			for _, o := range core.Origins(rv, false) {
+				if cst, isC := o.(*ssa.Const); isC && cst.IsNil() {
+					continue
+				}
+				sameAsKey := func(a ssa.Value) bool {
+					if len(keys) == 0 {
+						return false
+					}
+					for _, k := range keys {
+						if k == nil || !ord2SameKey(a, k) {
+							return false
+						}
+					}
+					return true
+				}
+				// an entry of the caller's map under the returned key
+				if ex, isEx := o.(*ssa.Extract); isEx {
+					if lk, isLk := ex.Tuple.(*ssa.Lookup); isLk {
+						o = lk
+					}
+				}
+				if lk, isLk := o.(*ssa.Lookup); isLk {
+					idx := -1
+					for _, mo := range core.Origins(lk.X, false) {
+						for i, pa := range g.Params {
+							if mo == pa {
+								idx = i
+							}
+						}
+					}
+					if idx >= 0 && sameAsKey(lk.Index) && (mapParam < 0 || mapParam == idx) {
+						mapParam = idx
+						hows = append(hows, "an entry the map already holds under that key")
+						continue
+					}
+					return false, -1, fmt.Sprintf("%s returns an element looked up under something else than the key it returns (%s)", short2(p.Name(g)), p.InstrPos(lk))
+				}
+				call, idx, isCall := core.ExtractOf(o)
+				if !isCall {
+					return false, -1, fmt.Sprintf("%s returns a value that is not loaded under the key it returns (%s)", short2(p.Name(g)), p.InstrPos(r))
+				}
+				h := call.Common().StaticCallee()
+				if h == nil {
+					return false, -1, fmt.Sprintf("%s returns the result of a dynamic call (%s)", short2(p.Name(g)), p.InstrPos(call))
+				}
+				if len(e.loads[h]) > 0 && idx < h.Signature.Results().Len() && types.Identical(h.Signature.Results().At(idx).Type(), elem) {
+					matched := false
+					for _, li := range ord2SortedInts(e.loads[h]) {
+						if li < len(call.Common().Args) && sameAsKey(call.Common().Args[li]) {
+							matched = true
+						}
+					}
+					if matched {
+						hows = append(hows, "loaded by "+short2(p.Name(h))+" under that key")
+						continue
+					}
+					return false, -1, fmt.Sprintf("%s returns a value loaded by %s under %s, and a different value as its key (%s)", short2(p.Name(g)), short2(p.Name(h)), ord2Desc(p, call.Common().Args[ord2SortedInts(e.loads[h])[0]]), p.InstrPos(r))
+				}
+				// a pair handed on from another helper
+				nested := false
+				if tup, isT := call.Type().(*types.Tuple); isT && h != g {
+					for kj := 0; kj < tup.Len(); kj++ {
+						if kj == idx {
+							continue
+						}
+						var kx ssa.Value
+						for _, rr := range *call.Referrers() {
+							if ex, isEx := rr.(*ssa.Extract); isEx && ex.Index == kj {
+								kx = ex
+							}
+						}
+						if kx == nil || !sameAsKey(kx) {
+							continue
+						}
+						if ok2, mp2, how2 := e.helperPair(h, kj, idx, elem, depth-1); ok2 {
+							if mp2 >= 0 {
+								// the nested helper reads a map: it must be this helper's map parameter
+								mi := -1
+								if mp2 < len(call.Common().Args) {
+									for _, mo := range core.Origins(call.Common().Args[mp2], false) {
+										for i, pa := range g.Params {
+											if mo == pa {
+												mi = i
+											}
+										}
+									}
+								}
+								if mi < 0 || (mapParam >= 0 && mapParam != mi) {
+									continue
+								}
+								mapParam = mi
+							}
+							hows = append(hows, how2)
+							nested = true
+						}
+					}
+				}
+				if nested {
+					continue
+				}
+				return false, -1, fmt.Sprintf("%s returns a value that is not loaded under the key it returns (%s)", short2(p.Name(g)), p.InstrPos(r))
+			}
+		}
+	}
+	if len(hows) == 0 {
+		return false, -1, short2(p.Name(g)) + " only returns nil"
+	}
+	return true, mapParam, fmt.Sprintf("the helper %s returns the key together with the value (%s)", short2(p.Name(g)), strings.Join(dedup(hows), ", "))
 }
 
 func ord2Updates(fn *ssa.Function, mk *ssa.MakeMap) []*ssa.MapUpdate {
@@ -716,6 +906,7 @@ func (e *ord2Engine) coherent(mu *ssa.MapUpdate, pub map[*types.Var]bool) (bool,
 			continue
 		}
 		// (a) looked up under the key
+		loadMiss := ""
 		if call, idx, ok := core.ExtractOf(o); ok {
 			if g := call.Common().StaticCallee(); g != nil && len(e.loads[g]) > 0 {
 				res := g.Signature.Results()
@@ -730,9 +921,54 @@ func (e *ord2Engine) coherent(mu *ssa.MapUpdate, pub map[*types.Var]bool) (bool,
 						hows = append(hows, "the value is loaded by "+short2(p.Name(g))+" under the map key")
 						continue
 					}
-					return false, fmt.Sprintf("the value is loaded by %s under %s, the map key is %s — a different value", short2(p.Name(g)), ord2Desc(p, call.Common().Args[ord2SortedInts(e.loads[g])[0]]), ord2Desc(p, mu.Key))
+					loadMiss = fmt.Sprintf("the value is loaded by %s under %s, the map key is %s — a different value", short2(p.Name(g)), ord2Desc(p, call.Common().Args[ord2SortedInts(e.loads[g])[0]]), ord2Desc(p, mu.Key))
 				}
 			}
+		}
+		// (a') the key and the value are two results of one helper call
+		if ex, isEx := o.(*ssa.Extract); isEx {
+			if call, isCall := ex.Tuple.(*ssa.Call); isCall {
+				if g := call.Common().StaticCallee(); g != nil && g.Blocks != nil {
+					decided, good, how := false, false, ""
+					for _, rr := range *call.Referrers() {
+						kx, isK := rr.(*ssa.Extract)
+						if !isK || kx.Index == ex.Index || !ord2SameKey(mu.Key, kx) {
+							continue
+						}
+						decided = true
+						ok2, mp, how2 := e.helperPair(g, kx.Index, ex.Index, elem, 3)
+						how = how2
+						if ok2 && mp >= 0 {
+							// entries taken from a map: it must be the very map the pair is stored into
+							same := mp < len(call.Common().Args)
+							if same {
+								same = false
+								for _, a := range core.Origins(call.Common().Args[mp], false) {
+									for _, b := range core.Origins(mu.Map, false) {
+										if a == b {
+											same = true
+										}
+									}
+								}
+							}
+							if !same {
+								ok2, how = false, "the helper "+short2(p.Name(g))+" takes entries from another map than the one they are stored into"
+							}
+						}
+						good = ok2
+					}
+					if decided {
+						if good {
+							hows = append(hows, how)
+							continue
+						}
+						return false, how
+					}
+				}
+			}
+		}
+		if loadMiss != "" {
+			return false, loadMiss
 		}
 		// (b) key computed from the value through the writer's key fields
 		roots := map[ssa.Value]bool{o: true, mu.Value: true}
